@@ -80,19 +80,13 @@ Definition run_ksteps (fn : Z) (body : bool) (w : nat) (mp : option nat) (pct re
             ++ enc_status (ts_vminmaxnorm (DT := IsNoneF64) f64_min f64_max body w mp xs)
    end)%Z.
 
-(* fn: 0 ts_vregx_resid_mean, 1 .._std, 2 .._skew; the second series may be shorter or longer.
-   MODEL CORNER (reported in notes/C10.md, Model/Driver.v is a shared file and is left as it is):
-   `rolling2_apply_idx_default` tests `bad_window` on the ZIPPED series, the code asserts
-   `window > 0 || self.is_empty()` on SELF.  They differ exactly when window = 0, self is non-empty and the
-   second series is empty (iterator body): the code panics (assert), the model returns Done [].  No access
-   happens on either side.  The status emitted here follows the code in that corner (`resid_corner`).     *)
-Definition resid_corner (body : bool) (w : nat) (xs ys : list float) : bool :=
-  negb body && (w =? 0)%nat && negb (length xs =? 0)%nat && (length ys =? 0)%nat.
+(* fn: 0 ts_vregx_resid_mean, 1 .._std, 2 .._skew; the second series may be shorter or longer (or empty:
+   window 0 on a non-empty first series is the window assertion on both bodies, Model/Driver.v follows
+   view.rs there since X12 - Proofs/KernelSteps.v : resid_window0_rejected).                             *)
 Definition run_ksteps2 (fn : Z) (body : bool) (w : nat) (mp : option nat) (xs ys : list float) : list Z :=
   let K := (match fn with 0 => RMean | 1 => RStd | _ => RSkew end)%Z in
   flat_map enc_step (steps_ts_vregx_resid (A := float) (D1 := IsNoneF64) (D2 := IsNoneF64) K body w mp xs ys)
-  ++ (if resid_corner body w xs ys then c_panic AssertFail
-      else enc_status (ts_vregx_resid (A := float) (D1 := IsNoneF64) (D2 := IsNoneF64) K body w mp xs ys)).
+  ++ enc_status (ts_vregx_resid (A := float) (D1 := IsNoneF64) (D2 := IsNoneF64) K body w mp xs ys).
 
 (* vrank: the observable trace cut at its writes.  A segment:
        reads of the series since the previous write, as the SORTED multiset of the class representatives
